@@ -7380,6 +7380,12 @@ static PyObject *b_gcp(PyObject *self, PyObject *args, PyObject *kwds)
     }
 
     cd = allocate_gcp_object(origobj, origobj->c_type, destructor);
+    if (cd != NULL && (origobj->c_type->ct_flags & CT_ARRAY) &&
+            origobj->c_type->ct_length < 0) {
+        /* an array of unspecified length: the new object needs its own
+           copy of the length, read by get_array_length() */
+        ((CDataObject_gcp *)cd)->length = get_array_length(origobj);
+    }
     return (PyObject *)cd;
 }
 
